@@ -1474,6 +1474,104 @@ def smooth_quiet(smooth, x, wl, wn):
     with contextlib.redirect_stdout(io.StringIO()):
         return smooth(x, wl, wn)
 
+
+# ----------------------------------------------------------------------------------------------------
+# scale: power-of-two rescaling is exact in doubles, so every scale-free output must be unchanged (bitwise where
+# the operation order is fixed) and every linear output must scale exactly; tiny- and huge-sum samples are judged by
+# the Fraction definition (an 'almost zero' guard with an absolute tolerance fails here)
+
+SCALE_EXPS = [-200, -100, -60, -50, -44, -40, -30, -20, 20, 60, 100, 200]
+
+
+def scale_cases(ctx, cases):
+    from quantecon._inequality import gini_coefficient, lorenz_curve
+    from quantecon import hamilton_filter, periodogram, ECDF
+    from quantecon._estspec import smooth
+
+    def lorenz_ref(y):
+        ys = sorted(y); tot = sum(ys); acc = F(0); out = [F(0)]
+        for v in ys:
+            acc += v; out.append(acc / tot)
+        return out
+
+    def judge(y, tag, rep):
+        """gini and Lorenz ordinates of the sample of exact doubles `y` against the Fraction definition"""
+        yf = np.array([float(v) for v in y])
+        g = float(gini_coefficient(yf))
+        cp, ci = lorenz_curve(yf)
+        ge = gini_exact(y)
+        if not close(g, ge, 1e-12):
+            ctx.spec_fail("gini_scale", "gini_coefficient=%r on a sample with sum %.3e; mean-abs-difference/(2 mean)=%r (%s)" % (
+                g, float(sum(y)), float(ge), tag), rep)
+        ref = lorenz_ref(y)
+        if len(ci) != len(y) + 1 or any(not close(float(a), b, 1e-13) for a, b in zip(ci, ref)) \
+                or any(not close(float(a), F(i, len(y)), 1e-15) for i, a in enumerate(cp)):
+            ctx.spec_fail("lorenz_scale", "lorenz_curve on a sample with sum %.3e differs from the cumulative shares (%s)" % (float(sum(y)), tag), rep)
+        return g, [float(v) for v in ci]
+
+    for it in range(ctx.n(6, 40)):
+        n = ctx.rng.choice([2, 3, 7, 20])
+        y = gen_sample(ctx, n)
+        if len(set(y)) == 1:
+            y[0] += F(1, 8)
+        g0, ci0 = judge(y, "unscaled", {"y": [str(v) for v in y]})
+        exps = SCALE_EXPS if (ctx.thorough or it == 0) else ctx.rng.sample(SCALE_EXPS, 4)
+        for k in exps:
+            ys = [v * F(2) ** k for v in y]
+            rep = {"op": "gini/lorenz", "y": [str(v) for v in y], "scale": "2**%d" % k, "sum_scaled": float(sum(ys))}
+            gk, cik = judge(ys, "rescaled by 2**%d" % k, rep)
+            # rescaling by a power of two is exact: the Lorenz ordinates (sequential loop) must be bitwise equal
+            if cik != ci0:
+                ctx.spec_fail("lorenz_scale", "lorenz_curve(2**%d * y) is not bitwise lorenz_curve(y)" % k, rep)
+            ctx.count("scale:gini-bitwise-equal" if gk == g0 else "scale:gini-bits-differ(parallel reduction)")
+            ctx.count("scale:2**%d" % k)
+        k = ctx.rng.choice([-200, -50, -44, 100])
+        ys = [v * F(2) ** k for v in y]
+        cases.append(Case("C19 gini y=%s" % rats(ys), fnum(float(gini_coefficient(np.array([float(v) for v in ys])))), cmp=env_cmp(1e-12), tag="gini-scale"))
+        cp, ci = lorenz_curve(np.array([float(v) for v in ys]))
+        cases.append(Case("C19 lorenz y=%s" % rats(ys), flist(cp) + "|" + flist(ci), cmp=env_cmp(1e-13), tag="lorenz-scale"))
+    # tiny-sum and huge-sum samples given as decimal doubles (not powers of two)
+    for vals in ([1e-13, 3e-13], [1e-13, 3e-13, 2e-13, 0.0], [2.5e-16, 1e-15, 7e-16], [1e-300, 3e-300, 2e-300], [5e-14] * 3 + [1e-14],
+                 [1e300, 2e300, 5e299], [3e150, 1e150, 1e150, 8e150], [1e-12, 1e-13], [9.9e-13, 1e-14]):
+        y = [F(v) for v in vals]
+        judge(y, "decimal tiny/huge sample", {"op": "gini/lorenz", "y": vals})
+        ctx.count("scale:tiny-or-huge-sum-sample")
+    for _ in range(ctx.n(6, 40)):
+        n = ctx.rng.randint(2, 12)
+        e = ctx.rng.choice([-300, -200, -100, -20, -16, -14, -13, -12, -11, 100, 290])
+        vals = [ctx.rng.randint(1, 999) * 10.0 ** e for _i in range(n)]
+        judge([F(v) for v in vals], "random decimal scale 1e%d" % e, {"op": "gini/lorenz", "y": vals})
+        ctx.count("scale:random-decimal-scale")
+    # linear routines: exact equivariance under 2**k (periodogram scales by 4**k), ECDF invariance
+    for _ in range(ctx.n(3, 20)):
+        n = ctx.rng.randint(20, 40)
+        x = [F(ctx.rng.randint(-32, 32), 4) for _i in range(n)]
+        xf = np.array([float(v) for v in x])
+        h, p = ctx.rng.randint(1, 4), ctx.rng.randint(1, 2)
+        w0, I0 = periodogram(xf)
+        s0 = smooth_quiet(smooth, xf, 5, "flat")
+        c0, t0 = hamilton_filter(xf, h)
+        obs_ref = ECDF(xf)(xf[:5])
+        for k in ctx.rng.sample([-200, -60, -44, -40, 40, 100], 3):
+            sc = 2.0 ** k
+            xs = [v * F(2) ** k for v in x]
+            rep = {"x": [str(v) for v in x], "scale": "2**%d" % k}
+            wk, Ik = periodogram(xf * sc)
+            if not np.array_equal(Ik, I0 * sc * sc) or not np.array_equal(wk, w0):
+                ctx.spec_fail("periodogram_scale", "periodogram(2**%d x) != 4**%d periodogram(x)" % (k, k), rep)
+            if not np.array_equal(smooth_quiet(smooth, xf * sc, 5, "flat"), s0 * sc):
+                ctx.spec_fail("smooth_scale", "smooth(2**%d x) != 2**%d smooth(x)" % (k, k), rep)
+            ck, tk = hamilton_filter(xf * sc, h)
+            if not (np.array_equal(ck, c0 * sc, equal_nan=True) and np.array_equal(tk, t0 * sc, equal_nan=True)):
+                ctx.spec_fail("hamilton_scale", "hamilton_filter(2**%d y, h) != 2**%d hamilton_filter(y, h)" % (k, k), rep)
+            ck, tk = hamilton_filter(xf * sc, h, p)
+            bad = hamilton_bad(xs, h, p, ck, tk)
+            if bad:
+                ctx.spec_fail("hamilton_scale", "hamilton_filter(2**%d y, h=%d, p=%d): %s" % (k, h, p, bad), rep)
+            if not np.array_equal(ECDF(xf * sc)(xf[:5] * sc), obs_ref):
+                ctx.spec_fail("ecdf_scale", "ECDF changes under rescaling of observations and argument by 2**%d" % k, rep)
+            ctx.count("scale:linear-routines")
+
 # ----------------------------------------------------------------------------------------------------
 # hamilton_filter
 
@@ -1718,6 +1816,7 @@ def run(ctx):
                 "periodogram n even/odd; smooth with the rational windows. A case is non-trivial when the answer is not forced "
                 "(>=2 distinct observations, a != b, N >= 3 lags, no error branch); distinct by request line")
     inequality_cases(ctx, cases)
+    scale_cases(ctx, cases)
     mobility_cases(ctx, cases)
     ecdf_cases(ctx, cases)
     bb_cases(ctx, cases)
